@@ -108,6 +108,38 @@ func drawn(L, offset float64, d []float64) (iv [][2]float64, solid bool) {
 	return iv, false
 }
 
+// boundaryNear reports whether a boundary of the (infinitely repeated) pattern lies within tol of path position L,
+// before or after it: the library, measuring the subpath a little longer or shorter, may then draw one piece more or less.
+func boundaryNear(L, tol, offset float64, d []float64) bool {
+	if len(d)%2 == 1 {
+		d = append(append([]float64(nil), d...), d...)
+	}
+	P := 0.0
+	for _, v := range d {
+		P += v
+	}
+	if !(P > 0) {
+		return false
+	}
+	base := math.Floor(offset/P)*P - offset
+	for base+P <= 0 {
+		base += P
+	}
+	for c0 := base; c0 < L+tol; c0 += P {
+		pos := c0
+		for _, v := range d {
+			if math.Abs(pos-L) < tol {
+				return true
+			}
+			pos += v
+		}
+		if math.Abs(pos-L) < tol {
+			return true
+		}
+	}
+	return false
+}
+
 type subpath struct {
 	segs   []oracle.Seg
 	closed bool
@@ -117,6 +149,7 @@ type subpath struct {
 	L      float64
 	size   float64
 	maxCurved float64
+	curved    float64 // total true length of the curved segments
 }
 
 const nDense = 1500
@@ -148,6 +181,7 @@ func prepSub(segs []oracle.Seg) *subpath {
 		sp.cum = append(sp.cum, sp.L)
 		if s.Curved() {
 			sp.maxCurved = math.Max(sp.maxCurved, sp.L-start)
+			sp.curved += sp.L - start
 		}
 		sb := oracle.SegBounds(s, 16)
 		b = b.Extend(oracle.Pt{X: sb.X0, Y: sb.Y0}).Extend(oracle.Pt{X: sb.X1, Y: sb.Y1})
@@ -218,8 +252,9 @@ func hardSegments(segs []oracle.Seg) (ecc, cusp bool) {
 	for _, s := range segs {
 		if s.Cmd == oracle.ArcTo {
 			rx, ry := s.Args[0], s.Args[1]
-			if math.Min(rx, ry)/math.Max(rx, ry) < 0.5 && math.Abs(s.ArcOf().Dth) > math.Pi/2 {
-				ecc = true
+			ratio := math.Min(rx, ry) / math.Max(rx, ry)
+			if ratio < 0.5 && math.Abs(s.ArcOf().Dth) > math.Pi/2 || ratio < 0.15 {
+				ecc = true // as in C09: long arcs of eccentric ellipses, needle ellipses at any sweep
 			}
 		}
 		if s.Cmd == oracle.QuadTo || s.Cmd == oracle.CubeTo {
@@ -231,7 +266,7 @@ func hardSegments(segs []oracle.Seg) (ecc, cusp bool) {
 				mn, mx = math.Min(mn, v), math.Max(mx, v)
 				prev = q
 			}
-			if mn < 0.1*mx {
+			if mn < 0.2*mx { // as in C09 (measured there)
 				cusp = true
 			}
 		}
@@ -368,11 +403,13 @@ func checkDash(c Case, r *vf.R) error {
 		}
 		// the library measures with its own approximate lengths: cases where an interval boundary falls
 		// within 2 % of the subpath's end are ambiguous and only get the checks above
-		tolLen := 0.015*sp.maxCurved + 1e-7*sp.size
-		amb := false
+		// positions are measured by the library in its own arc length, one percent or so off per curved segment:
+		// the errors of the curved segments before a position add up
+		tolLen := 0.015*sp.curved + 1e-7*sp.size
+		amb := boundaryNear(sp.L, 0.02*sp.curved+1e-6*sp.size, c.Offset, c.D)
 		for _, x := range iv {
 			for _, v := range x {
-				if v > 0 && v < sp.L && (sp.L-v < 0.02*sp.maxCurved+1e-6*sp.size || v < 1e-6*sp.size) {
+				if v > 0 && v < sp.L && (sp.L-v < 0.02*sp.curved+1e-6*sp.size || v < 1e-6*sp.size) {
 					amb = true
 				}
 			}
